@@ -601,8 +601,19 @@ class SArr(SArrBase):
         okind = "b" if ot.sort().kind() == z3.Z3_BOOL_SORT else ("i" if core._is_int(ot) else "f")
         rk = kind or _join_kind(self.kind, okind)
         if swap:
-            return SArr(self.shape, lambda *i: f(*_co(ot, ae(*i))), rk)
-        return SArr(self.shape, lambda *i: f(*_co(ae(*i), ot)), rk)
+            r = SArr(self.shape, lambda *i: f(*_co(ot, ae(*i))), rk)
+        else:
+            r = SArr(self.shape, lambda *i: f(*_co(ae(*i), ot)), rk)
+        if self.mask_of is not None:
+            # an element-wise operation with a scalar commutes with boolean-mask selection
+            base, mask, sel, inv = self.mask_of
+            be = base._elem
+            if swap:
+                nb_ = SArr(base.shape, lambda *i: f(*_co(ot, be(*i))), rk)
+            else:
+                nb_ = SArr(base.shape, lambda *i: f(*_co(be(*i), ot)), rk)
+            r.mask_of = (nb_, mask, sel, inv)
+        return r
 
     def __add__(self, o):
         return self._ew(o, lambda a, b: a + b)
